@@ -6,7 +6,12 @@ Decided:
          written through; mutable containers taken from them are copied before being kept; attributes that
          remain aliases (methods) are not mutated by anything in the package after construction; the same
          for Route.__init__ (copies caller-supplied containers), SubApplication.bind_all (fresh list, never
-         writes self.app) and merge_middlewares (only mutates its own fresh list);
+         writes self.app) and merge_middlewares (only mutates its own fresh list); and at request time: no heap
+         effect reachable from Application.__call__ has a Route / BoundRoute / Application (or a local alias of one
+         of their containers) as receiver, and an object instantiated per request (DispatchState, the exception
+         family) that updates one of its fields in place only lets containers of its own flow into that field --
+         a value handed in is followed to what the callers pass (route.methods is the *same* set in the unbound
+         Route, in every BoundRoute made from it and in every application those were embedded into);
   R11.b  add() is atomic: every call that can fail at bind time (cast_to_route_factory, bind, bind_all)
          strictly precedes the first mutation of self.routes on every path; after the first insertion only
          insertions and index arithmetic follow;
@@ -122,6 +127,345 @@ class HelperClosure(object):
         return any(key in keys for keys in self.refs.get(fi.name, []))
 
 
+COPYING_TAILS = {'copy', 'union', 'intersection', 'difference', 'symmetric_difference', 'keys', 'values', 'items'}
+FAMILY = ((ROUTE, 'Route'), (ROUTE, 'BoundRoute'), (APP, 'Application'), (APP, 'SubApplication'))
+
+
+class Verdict(object):
+    """Who owns an object a value can denote: kind 'fresh' (allocated in this activation / immutable), 'request-local'
+    (belongs to the request being served), 'owned' (part of something that outlives the request: ``owner`` is its class
+    when known, 'module' for process-wide objects) or 'unknown' (could not be established)."""
+    __slots__ = ('kind', 'why', 'owner', 'fi', 'node')
+
+    def __init__(self, kind, why, fi, node, owner=None):
+        self.kind, self.why, self.fi, self.node, self.owner = kind, why, fi, node, owner
+
+    def __repr__(self):
+        return '<%s %s>' % (self.kind, self.why)
+
+
+class Ownership(object):
+    """Ownership of values on the request path, on top of the non-interference view (``noninterf.RequestPath``: the
+    functions reachable from Application.__call__, the classes instantiated per request, ``classify`` /
+    ``shared_aliases`` / ``param_role`` and the call graph).  Adds what C11 needs: the *owner* of a long-lived receiver
+    (a Route / BoundRoute / Application, by class of ``self``, by receiver role, through aliases), values followed
+    through named temporaries, helper results and -- for parameters -- to what the callers hand over."""
+
+    def __init__(self, repo):
+        from .noninterf import RequestPath
+        self.repo = repo
+        self.rp = RequestPath(repo)
+        self.family = []
+        for modname, cname in FAMILY:
+            m = repo.try_mod(modname)
+            if m is not None and cname in m.classes:
+                self.family.append(m.classes[cname])
+        if len(self.family) != len(FAMILY):
+            raise AnalysisError('Route / BoundRoute / Application / SubApplication classes not found')
+        self._flows = {}
+
+    # -- small helpers ---------------------------------------------------------------------------------------------
+    def flow(self, fi):
+        if fi.key not in self._flows:
+            self._flows[fi.key] = Flow(fi)
+        return self._flows[fi.key]
+
+    def in_family(self, ci):
+        return ci is not None and not isinstance(ci, str) and any(ci is f or f in self.repo.mro(ci) for f in self.family)
+
+    def long_role(self, names):
+        """(name, class) of the first name whose receiver role is a class that outlives a request."""
+        for nm in names:
+            for rc in self.rp.cg._role_classes(nm):
+                if not self.rp.is_per_request_class(rc):
+                    return nm, rc
+        return None
+
+    def per_request_classes(self):
+        rp = self.rp
+        return rp.per_request + [c for c in rp.cg.classes if c not in rp.per_request and any(pr in self.repo.mro(c) for pr in rp.per_request)]
+
+    def top_of(self, ci):
+        for pr in self.rp.per_request:
+            if ci is pr or pr in self.repo.mro(ci):
+                return pr
+        return ci
+
+    def recv_class(self, fi, fl, name, st):
+        """Per-request class of the receiver ``name`` (self of such a class, a receiver role, a local built here)."""
+        rp = self.rp
+        if name in ('self', 'cls'):
+            ci = rp.cg.enclosing_class(fi)
+            return ci if rp.is_per_request_class(ci) else None
+        roles = rp.cg._role_classes(name)
+        if roles:
+            return roles[0] if all(rp.is_per_request_class(c) for c in roles) else None
+        d = fl.single_def(name, st) if st is not None else None
+        if d is not None and isinstance(d.value, ast.Call) and isinstance(d.value.func, ast.Name):
+            kind, m, obj = self.repo.resolve(fi.mod, d.value.func.id)
+            if kind == 'class' and rp.is_per_request_class(obj):
+                return obj
+        return None
+
+    # -- provenance of a value -------------------------------------------------------------------------------------
+    def judge(self, fi, expr, at, depth=0, seen=frozenset()):
+        """[Verdict] for every object ``expr`` (evaluated at statement ``at`` of ``fi``) can denote."""
+        if depth > 5:
+            return [Verdict('unknown', 'value followed through more than 5 functions', fi, expr)]
+        if isinstance(fi.node, ast.Lambda) or not hasattr(fi, 'params'):
+            return [Verdict('unknown', 'value computed in a lambda', fi, expr)]
+        fl = self.flow(fi)
+        out = []
+        for lf in fl.leaves(expr, at):
+            st = lf.stmt if isinstance(lf.stmt, ast.AST) else (at if isinstance(at, ast.AST) else None)
+            out.extend(self._leaf(fi, fl, lf, st, depth, seen))
+        return out
+
+    def _returns(self, callee, depth, seen, via):
+        rets = [r for r in returns_of(callee) if r.value is not None]
+        if not rets or any(isinstance(n, (ast.Yield, ast.YieldFrom)) for n in walk_body(callee.node)):
+            return [Verdict('unknown', 'result of %s could not be followed' % callee.qualname, callee, via)]
+        out = []
+        for r in rets:
+            out.extend(self.judge(callee, r.value, r, depth + 1, seen))
+        return out
+
+    def _leaf(self, fi, fl, lf, st, depth, seen):
+        v = lf.value
+        params = set(fi.params())
+        a = fi.node.args
+        if lf.opaque and isinstance(lf.stmt, ast.AugAssign) and slot_key(lf.stmt.target) is not None and (id(lf.stmt), 'aug') not in seen:
+            # x op= more: still the object x held before (updated in place), or a new immutable
+            before = [b for b in fl.leaves(lf.stmt.target, lf.stmt) if b.stmt is not lf.stmt]
+            out = []
+            for b in before:
+                out.extend(self._leaf(fi, fl, b, b.stmt if isinstance(b.stmt, ast.AST) else st, depth, seen | {(id(lf.stmt), 'aug')}))
+            if out:
+                return out
+        if lf.opaque:
+            return [self._classify(fi, v, st, depth, seen)]
+        if isinstance(v, ast.Constant):
+            return [Verdict('fresh', 'immutable constant %s' % short(v, 20), fi, v)]
+        if isinstance(v, ast.BoolOp):
+            out = []
+            for o in v.values:
+                out.extend(self.judge(fi, o, st, depth, seen))
+            return out
+        if isinstance(v, ast.Name) and (v.id in params or (a.vararg and a.vararg.arg == v.id) or (a.kwarg and a.kwarg.arg == v.id)) \
+                and v.id not in ('self', 'cls'):
+            return self._param(fi, v.id, v, depth, seen)
+        callee = None
+        try:
+            if fresh_container(fl, fi, lf, self.repo):
+                return [Verdict('fresh', 'allocated here: %s' % short(v, 40), fi, v)]
+        except AnalysisError:
+            callee = effects.callee_of(self.repo, fi, v) if isinstance(v, ast.Call) else None
+        if isinstance(v, ast.Call):
+            f = v.func
+            if isinstance(f, ast.Attribute) and f.attr in COPYING_TAILS:
+                return [Verdict('fresh', 'a new container: %s' % short(v, 40), fi, v)]
+            targets = [callee] if callee is not None else []
+            kind = 'call'
+            if not targets:
+                tg, kind = self.rp.cg._resolve_expr(fi, f)
+                targets = [t for t in tg if hasattr(t, 'params') and not t.mod.external]
+            if kind == 'new':
+                return [Verdict('fresh', 'object constructed here: %s' % short(v, 40), fi, v)]
+            if targets and kind in ('call', 'self', 'role', 'classattr', 'super'):
+                out = []
+                for t in targets:
+                    if (t.key, 'ret') in seen:
+                        continue
+                    out.extend(self._returns(t, depth, seen | {(t.key, 'ret')}, v))
+                return out
+            base = f
+            while isinstance(base, (ast.Attribute, ast.Subscript)):
+                base = base.value
+            if isinstance(f, ast.Name) or (isinstance(base, ast.Name) and self.repo.resolve(fi.mod, base.id)[0] in ('module', 'external')
+                                           and base.id not in params and base.id not in fl.defs):
+                return [Verdict('request-local', 'value produced by a call in this activation: %s' % short(v, 40), fi, v)]
+            # a method of some object hands out (part of) that object unless known otherwise: judged as the receiver
+        return [self._classify(fi, v, st, depth, seen)]
+
+    def _param(self, fi, name, node, depth, seen):
+        """A parameter is what the callers hand over."""
+        rp = self.rp
+        a = fi.node.args
+        if a.kwarg and a.kwarg.arg == name:
+            return [Verdict('fresh', '**%s is built per call' % name, fi, node)]
+        if a.vararg and a.vararg.arg == name:
+            return [Verdict('fresh', '*%s is built per call' % name, fi, node)]
+        lr = self.long_role([name])
+        if lr:
+            return [Verdict('owned', 'parameter %s is a %s' % (name, lr[1].name), fi, node, lr[1])]
+        from .noninterf import REQUEST_LOCAL_NAMES
+        if name in REQUEST_LOCAL_NAMES:
+            return [Verdict('request-local', 'role of %s' % name, fi, node)]
+        why = rp.param_role(fi, name)
+        if why:
+            return [Verdict('request-local', why, fi, node)]
+        edges = rp.cg.callers(fi)
+        if not edges:
+            return [Verdict('unknown', 'parameter %s of %s: no call of the function found' % (name, fi.qualname), fi, node)]
+        if any(e.kind == 'ref' for e in edges) or any(fi is f for f, _ in rp.dynamic_roots):
+            return [Verdict('unknown', 'parameter %s of %s: the function is passed around as a value, its callers cannot be listed'
+                            % (name, fi.qualname), fi, node)]
+        pos = [x.arg for x in a.posonlyargs + a.args]
+        defaults = dict(zip(pos[len(pos) - len(a.defaults):], a.defaults))
+        defaults.update((k.arg, d) for k, d in zip(a.kwonlyargs, a.kw_defaults) if d is not None)
+        static = any(isinstance(d, ast.Name) and d.id == 'staticmethod' for d in fi.node.decorator_list)
+        out = []
+        for e in edges:
+            call, caller = e.node, e.caller
+            if not isinstance(call, ast.Call) or any(isinstance(x, ast.Starred) for x in call.args) or any(k.arg is None for k in call.keywords) \
+                    or not hasattr(caller, 'params') or isinstance(caller.node, ast.Lambda):
+                out.append(Verdict('unknown', 'parameter %s of %s: argument of a call in %s could not be identified' %
+                                   (name, fi.qualname, getattr(caller, 'qualname', '?')), fi, node))
+                continue
+            idx = pos.index(name) if name in pos and name not in [k.arg for k in a.kwonlyargs] else None
+            if idx is not None and fi.cls is not None and not static and e.kind != 'classattr':
+                idx -= 1                    # bound call / construction: self is implicit
+            from ..astutil import argn
+            arg = argn(call, name, idx if idx is None or idx >= 0 else None)
+            if arg is None and name in defaults:
+                dflt = defaults[name]
+                if isinstance(dflt, ast.Constant):
+                    out.append(Verdict('fresh', 'default %s' % short(dflt, 20), fi, dflt))
+                else:       # evaluated once, at definition time: the same object in every call
+                    out.append(Verdict('owned', 'default value %s of parameter %s is created once and shared by every call' %
+                                       (short(dflt, 30), name), fi, dflt, 'module'))
+                continue
+            if arg is None:
+                out.append(Verdict('unknown', 'parameter %s of %s: not passed by %s' % (name, fi.qualname, caller.qualname), fi, node))
+                continue
+            if (caller.key, id(arg)) in seen:
+                continue
+            sub = self.judge(caller, arg, stmt_of(caller.mod, call), depth + 1, seen | {(caller.key, id(arg))})
+            for s in sub:
+                if s.kind in ('owned', 'unknown'):
+                    s.why = '%s -- handed to %s(%s) by %s as %s' % (s.why, fi.qualname, name, caller.qualname, short(arg, 40)) \
+                        if 'handed to' not in s.why else s.why
+                out.append(s)
+        return out
+
+    def _classify(self, fi, v, st, depth=0, seen=frozenset()):
+        """Verdict for an attribute / item / call chain by its receiver: the request-path classification, refined by
+        the *owner* when the receiver is long-lived."""
+        rp = self.rp
+        ch = effects.chain_of(v)
+        if not ch:
+            return Verdict('unknown', 'value %s is not rooted in a name' % short(v, 40), fi, v)
+        root = ch[0]
+        cls, why = rp.classify(fi, effects.Effect('mutcall', v, st if st is not None else v), effects.fresh_locals(self.repo, fi))
+        lr = self.long_role([x for x in ch[1:] if x not in ('[]', '()')])
+        if lr and cls != 'fresh':
+            return Verdict('owned', '%s is reached through .%s, a %s' % (short(v, 40), lr[0], lr[1].name), fi, v, lr[1])
+        if cls != 'shared':
+            return Verdict(cls, why, fi, v)
+        ci = rp.cg.enclosing_class(fi)
+        if root in ('self', 'cls'):
+            return Verdict('owned', '%s belongs to the %s it is a method of' % (short(v, 40), ci.name if ci else 'object'), fi, v, ci)
+        al = rp.shared_aliases(fi)
+        if root in al:
+            base = al[root].split('.')[0].split('[')[0]
+            owner = ci if base in ('self', 'cls') else (self.long_role([base]) or (None, None))[1]
+            return Verdict('owned', 'local %s is an alias of %s (no copy)' % (root, al[root]), fi, v, owner)
+        lr = self.long_role([root])
+        if lr:
+            return Verdict('owned', '%s is (part of) a %s' % (short(v, 40), lr[1].name), fi, v, lr[1])
+        a = fi.node.args
+        if root in fi.params() and len(ch) > 1:
+            sub = self._param(fi, root, v, depth, seen)
+            bad = [s for s in sub if s.kind in ('owned', 'unknown')]
+            if bad:
+                return Verdict(bad[0].kind, bad[0].why, fi, v, bad[0].owner)
+            if sub:
+                return Verdict('request-local', 'every caller passes an object of its own request for %s' % root, fi, v)
+        if root in fi.mod.assigns or root in fi.mod.imports:
+            return Verdict('owned', 'module-level object %s' % root, fi, v, 'module')
+        return Verdict('unknown', why, fi, v)
+
+    # -- fields of per-request objects -----------------------------------------------------------------------------
+    def field_sites(self):
+        """{(per-request class, field): {'mut': [(fi, node, text)], 'asg': [(fi, stmt, value or None)]}} over the methods
+        of the classes instantiated per request and every function on the request path; receivers are ``self`` of such
+        a class, receiver roles (dispatch_state, _error, ...) and locals built here, looked at through local aliases.
+        In place: mutating calls, stores into an item / attribute of the field, ``del``, augmented assignment."""
+        rp = self.rp
+        funcs, seen_f = [], set()
+        for ci in self.per_request_classes():
+            for m in ci.methods.values():
+                if m.key not in seen_f:
+                    seen_f.add(m.key)
+                    funcs.append(m)
+        for fi in sorted(rp.reach, key=lambda f: f.key):
+            if not fi.mod.external and fi.key not in seen_f and hasattr(fi, 'params') and not isinstance(fi.node, ast.Lambda):
+                seen_f.add(fi.key)
+                funcs.append(fi)
+        sites = {}
+        for fi in funcs:
+            if isinstance(fi.node, ast.Lambda):
+                continue
+            fl = self.flow(fi)
+            for e in effects.effects_in(fi.node) + effects.aug_name_effects(fi.node):
+                st = stmt_of(fi.mod, e.node)
+                tgt = e.target
+                set_value = None
+                if e.method == 'setattr' and isinstance(e.node, ast.Call) and len(e.node.args) == 3 and not e.node.keywords and \
+                        isinstance(e.node.args[1], ast.Constant) and isinstance(e.node.args[1].value, str):
+                    # setattr(obj, 'field', value) is obj.field = value
+                    tgt = ast.copy_location(ast.Attribute(value=e.node.args[0], attr=e.node.args[1].value, ctx=ast.Store()), e.node)
+                    set_value = e.node.args[2]
+                try:
+                    rt = fl.resolve(tgt, st) if st is not None else tgt
+                except Exception:
+                    rt = tgt
+                ch = effects.chain_of(rt)
+                if not ch:
+                    continue
+                ci = self.recv_class(fi, fl, ch[0], st)
+                aug = isinstance(e.node, ast.AugAssign)
+                if ci is None and ch[0] in fl.defs and st is not None and (e.kind in ('mutcall', 'delete') or len(ch) > 1 and e.kind == 'store'
+                                                                             or aug and effects.aug_in_place(e.node)):
+                    # a local that *may* stand for a field (either arm of a conditional): the update may hit the field
+                    for lf in fl.leaves(ast.Name(id=ch[0], ctx=ast.Load()), st):
+                        lch = effects.chain_of(lf.value) if not lf.opaque and isinstance(lf.value, (ast.Attribute, ast.Subscript)) else None
+                        if lch and len(lch) >= 2 and lch[1] not in ('[]', '()') and lf.stmt is not e.node:
+                            ci2 = self.recv_class(fi, fl, lch[0], lf.stmt if isinstance(lf.stmt, ast.AST) else st)
+                            if ci2 is not None:
+                                sites.setdefault((self.top_of(ci2), lch[1]), {'mut': [], 'asg': []})['mut'].append((fi, e.node, short(e.node, 60)))
+                if ci is None or len(ch) < 2 or ch[1] in ('[]', '()'):
+                    continue
+                rec = sites.setdefault((self.top_of(ci), ch[1]), {'mut': [], 'asg': []})
+                if e.kind in ('mutcall', 'delete') or len(ch) > 2 and e.kind != 'aug' or (aug and effects.aug_in_place(e.node)):
+                    if e.kind == 'delete' and len(ch) == 2:
+                        continue
+                    rec['mut'].append((fi, e.node, short(e.node, 60)))
+                elif e.kind == 'store' and len(ch) == 2 and not aug:
+                    value = None
+                    if isinstance(e.node, ast.Assign) and any(t is tgt for t in e.node.targets):
+                        value = e.node.value
+                    elif isinstance(e.node, ast.AnnAssign):
+                        value = e.node.value
+                    elif isinstance(e.node, ast.Assign):
+                        for d in fl.defs.get(slot_key(tgt) or '', []):
+                            if d.stmt is e.node:
+                                value = fl.unpacked(d)[0]
+                    elif set_value is not None:
+                        value = set_value
+                    elif isinstance(e.node, ast.Call):
+                        continue            # setattr with a computed name / delattr: not a store into a known field
+                    rec['asg'].append((fi, e.node, value))
+        # whatever the shared view reports as a per-request field assignment is judged too
+        for ci, m, field, st_, fresh in rp.field_freshness():
+            rec = sites.setdefault((self.top_of(ci), field), {'mut': [], 'asg': []})
+            if not rec['mut']:
+                rec['mut'].append((m, st_, 'mutated in place by %s' % ci.name))
+            if not any(s is st_ for _, s, _ in rec['asg']):
+                rec['asg'].append((m, st_, st_.value))
+        return sites
+
+
 def run(rep):
     from .c10 import _safe
     repo = rep.repo
@@ -132,7 +476,8 @@ def run(rep):
     rep.decide('R11.a binding writes only the new object / copies containers; R11.b add() binds before it mutates; '
                'R11.c running index; R11.d module-level state inventory')
     rep.decline('equality of responses before/after binding (needs running); state inside third-party objects')
-    rep.rule('R11.a', 'effect analysis: receivers are self / fresh; parameters read-only; containers copied')
+    rep.rule('R11.a', 'effect analysis: receivers are self / fresh; parameters read-only; containers copied; at request time nothing '
+             'writes a route / application, per-request objects update only containers of their own (ownership followed to the callers)')
     rep.rule('R11.b', 'CFG ordering: failing calls precede the first mutation; only inserts follow')
     rep.rule('R11.c', 'running index in add()')
     rep.rule('R11.d', 'every writer of module-level state is in the frozen inventory')
@@ -269,6 +614,88 @@ def run(rep):
                               '%s mutates .%s of an existing route/application object (shared with everything it was bound into)' % (fi.key, hit[0]),
                               m, e.node)
     rep_guard(r11a)
+
+    def request_time():
+        """Serving a request never mutates a container that a Route / BoundRoute / Application owns.  Route objects and
+        the containers they keep by reference (``methods``) are shared by the unbound Route, by every BoundRoute made from
+        it and by every application those were embedded into, so a request-time mutation of one changes them all.
+        (1) an object instantiated per request that updates one of its fields in place only ever lets containers of its
+        own flow into that field -- values handed in are followed to what the callers pass; (2) no heap effect on the
+        request path has a Route / BoundRoute / Application (or a local alias of one of its containers) as receiver."""
+        from .noninterf import path_text
+        own = Ownership(repo)
+        rp = own.rp
+        unknown = []
+        sites = own.field_sites()
+        mutated = dict((k, r) for k, r in sites.items() if r['mut'])
+        if not sites:
+            raise AnalysisError('no field of a per-request object (DispatchState, ...) found')
+        if not mutated:
+            rep.ok('R11.a', 'request-time::per-request fields', 'no field of a per-request object is updated in place (%d fields are only ever re-bound)' % len(sites), app)
+        for (ci, field), rec in sorted(mutated.items(), key=lambda kv: (kv[0][0].name, kv[0][1])):
+            how = rec['mut'][0][2]
+            for fi, st, value in rec['asg']:
+                key = 'request-time::%s.%s::%s::%s' % (ci.name, field, fi.key, norm(st)[:60])
+                if value is None:
+                    unknown.append('%s: value stored into .%s by %s not identified' % (fi.qualname, field, short(st, 50)))
+                    continue
+                vs = own.judge(fi, value, st if isinstance(st, ast.stmt) else stmt_of(fi.mod, st))
+                bad = [v for v in vs if v.kind == 'owned']
+                unk = [v for v in vs if v.kind == 'unknown']
+                if not bad and (unk or not vs):
+                    unknown.append('%s: what flows into .%s could not be established (%s)' % (fi.qualname, field, unk[0].why if unk else short(value, 40)))
+                    continue
+                rep.check('R11.a', key, not bad, '%s.%s (updated in place per request) holds a container of the request\'s own: %s' %
+                          (ci.name, field, ' | '.join(sorted(set(v.kind for v in vs)))) if not bad else
+                          '%s.%s is updated in place while a request is served (%s), but %s lets it hold an object that outlives the request: '
+                          '%s. The per-request object adopts the container instead of copying it, so one request permanently changes a route\'s / '
+                          'application\'s own data -- for the unbound Route and every application it was bound or embedded into' %
+                          (ci.name, field, how, short(st, 50), bad[0].why), fi.mod, st)
+        n, hits = 0, 0
+        for fi, e, cls, why, path in rp.effects():
+            n += 1
+            if cls != 'shared':
+                continue
+            st = stmt_of(fi.mod, e.node)
+            vs = [own._classify(fi, e.target, st)]
+            if vs[0].kind == 'unknown' and e.root not in (None, 'self', 'cls') and hasattr(fi, 'params') and not isinstance(fi.node, ast.Lambda) \
+                    and st is not None:
+                # a local receiver: whatever can reach it (either arm of a conditional, what the callers pass)
+                vs = own.judge(fi, ast.copy_location(ast.Name(id=e.root, ctx=ast.Load()), e.node), st)
+            bad = [v for v in vs if v.kind == 'owned' and own.in_family(v.owner)]
+            if bad:
+                hits += 1
+                rep.fail('R11.a', 'request-time::%s::%s' % (fi.key, norm(e.node)[:70]),
+                         '%s writes %s while serving a request: %s. Route / application objects are shared by everything they were bound or '
+                         'embedded into (reached via %s)' % (fi.qualname, short(e.target, 40), bad[0].why, path_text(path)), fi.mod, e.node)
+        for fi in sorted(rp.reach, key=lambda f: f.key):
+            if fi.mod.external or isinstance(fi.node, ast.Lambda) or not hasattr(fi, 'params'):
+                continue
+            augs = [e for e in effects.aug_name_effects(fi.node) if effects.aug_in_place(e.node)]
+            if not augs:
+                continue
+            fl = own.flow(fi)
+            for e in augs:
+                n += 1
+                st = stmt_of(fi.mod, e.node)
+                for lf in fl.leaves(e.target, st):
+                    if lf.opaque or lf.stmt is e.node or not isinstance(lf.value, (ast.Attribute, ast.Subscript)):
+                        continue
+                    ch = effects.chain_of(lf.value)
+                    if not ch or len(ch) < 2 or own.recv_class(fi, fl, ch[0], st) is not None:
+                        continue
+                    v = own._classify(fi, lf.value, lf.stmt if isinstance(lf.stmt, ast.AST) else st)
+                    if v.kind == 'owned' and own.in_family(v.owner):
+                        hits += 1
+                        rep.fail('R11.a', 'request-time::%s::%s' % (fi.key, norm(e.node)[:70]),
+                                 '%s updates %s in place (%s) while serving a request, and %s can be %s: %s' %
+                                 (fi.qualname, e.target.id, short(e.node, 40), e.target.id, short(lf.value, 40), v.why), fi.mod, e.node)
+        rep.check('R11.a', 'request-time::effects on the request path', hits == 0,
+                  '%d heap effects reachable from Application.__call__: none has a Route / BoundRoute / Application as receiver' % n if not hits else
+                  '%d request-time write(s) to route / application objects' % hits, app)
+        if unknown:
+            raise AnalysisError('request-time ownership: ' + '; '.join(unknown[:4]))
+    rep_guard(request_time)
     rep_guard(rep.floor, 'R11.a', 25)
 
     # ---- R11.b -----------------------------------------------------------
